@@ -162,59 +162,70 @@ def run_property(prop, pid, tier, seed, args, t0):
         return None
 
     failing_obs = [(o, r, "refuted") for o, r in refuted] + [(o, r, r["verdict"]) for o, r in unknown]
-    # obligations first: a refuted obligation is a violation (counter-model replayed where it is an input);
-    # an undischarged one is a violation only if a concrete failing input is found by the stand-ins below
+    # A refuted obligation is a violation (its counter-model is replayed on the real code where it is an input, else a
+    # failing input found by the stand-ins for the same function is attached, else `no-failing-input-found`).
+    # An obligation the solver could not decide is a violation only together with a concrete failing input.
     undecided = []
+    used_failures = set()
+
+    def related_failure(o):
+        for idx, f in enumerate(failures):
+            fn_ = f.get("function") or ""
+            if fn_ and (o.func == fn_ or o.func.endswith(fn_) or fn_.endswith(o.func)):
+                if match_known(f.get("id", "") + " " + fn_ + " " + str(f.get("observed", ""))) is None:
+                    return idx, f
+        return None, None
+
     for o, r, v in failing_obs:
         k = match_known(o.name)
         if k is not None:
             known_hit.append((k, o.name))
             continue
+        case, observed = None, None
         if v == "refuted":
-            case = None
             rp = getattr(prop, "model_to_case", None)
-            if rp is not None:
+            if rp is not None and getattr(prop, "replay", None):
                 try:
-                    case = rp(o, r.get("model", {}))
+                    c0 = rp(o, r.get("model", {}))
+                    if c0 is not None:
+                        ok, msg = prop.replay(c0)
+                        if not ok:
+                            case, observed = c0, msg
                 except Exception:  # noqa: BLE001
-                    case = None
-            confirmed = None
-            if case is not None and getattr(prop, "replay", None):
-                try:
-                    ok, msg = prop.replay(case)
-                    confirmed = (not ok, msg)
-                except Exception as e:  # noqa: BLE001
-                    confirmed = (False, f"replay crashed: {e}")
-            # a counter-model that does not fail on the real code is not an input (loop-head state / uninterpreted builtin):
-            related = [f for f in failures if f.get("function") == o.func or o.func.endswith(f.get("function", "\0"))]
-            path = os.path.join("replay", safe(f"{pid}__{o.name}.json"))
-            rec = {"property": pid, "obligation": o.name, "function": o.func, "verdict": v, "solver": r, "line": o.line}
-            if confirmed and confirmed[0]:
-                rec["case"] = case
-                rec["observed"] = confirmed[1]
-                suffix = ""
-            elif related:
-                rec["case"] = related[0]["case"]
-                rec["observed"] = related[0]["observed"]
-                suffix = ""
-            else:
-                suffix = " no-failing-input-found"
+                    pass
+        if case is None:
+            idx, f = related_failure(o)
+            if f is not None:
+                case, observed = f["case"], f["observed"]
+                used_failures.add(idx)
+        path = os.path.join("replay", safe(f"{pid}__{o.name}.json"))
+        rec = {"property": pid, "obligation": o.name, "function": o.func, "verdict": v, "solver": r, "line": o.line}
+        if case is not None:
+            rec["case"], rec["observed"] = case, observed
             json.dump(rec, open(os.path.join(ROOT, path), "w"), indent=1, default=str)
-            lines.append(f"VIOLATION property={pid} replay={path}{suffix}")
+            lines.append(f"VIOLATION property={pid} replay={path}")
+            violation_files.append(path)
+        elif v == "refuted":
+            json.dump(rec, open(os.path.join(ROOT, path), "w"), indent=1, default=str)
+            lines.append(f"VIOLATION property={pid} replay={path} no-failing-input-found")
             violation_files.append(path)
         else:
             undecided.append((o, r))
-    for f in failures:
-        k = match_known(f.get("id", "") + " " + f.get("function", ""))
-        if k is not None:
-            known_hit.append((k, f.get("id", "")))
+    extra = 0
+    for idx, f in enumerate(failures):
+        if match_known(f.get("id", "") + " " + (f.get("function") or "") + " " + str(f.get("observed", ""))) is not None:
+            known_hit.append((match_known(f.get("id", "") + " " + (f.get("function") or "") + " " + str(f.get("observed", ""))), f.get("id", "")))
             continue
+        if idx in used_failures or (used_failures and any(failures[u].get("function") == f.get("function") for u in used_failures)):
+            continue  # the same defect is already reported through the obligation it fails
+        if extra >= 3:
+            continue
+        extra += 1
         path = os.path.join("replay", safe(f"{pid}__{f['source']}__{f.get('id', 'case')}.json"))
         rec = {"property": pid, "obligation": f.get("obligation", f["source"]), "function": f.get("function"), "case": f["case"], "observed": f["observed"], "expected": f.get("expected"), "bounded": True}
         json.dump(rec, open(os.path.join(ROOT, path), "w"), indent=1, default=str)
-        if path not in violation_files:
-            lines.append(f"VIOLATION property={pid} replay={path}")
-            violation_files.append(path)
+        lines.append(f"VIOLATION property={pid} replay={path}")
+        violation_files.append(path)
     # known findings must still reproduce (otherwise the entry is stale and says so)
     seen = set()
     for k, what in known_hit:
@@ -223,11 +234,7 @@ def run_property(prop, pid, tier, seed, args, t0):
         seen.add(k["what"])
         print(f"KNOWN-FINDING: property={pid} {k['what']}")
     # an undecided obligation with a related concrete failure has been reported through the failure; otherwise undecided
-    still_undecided = []
-    for o, r in undecided:
-        if any((f.get("function") or "") and o.func.endswith(f.get("function")) for f in failures):
-            continue
-        still_undecided.append((o, r))
+    still_undecided = list(undecided)
     # ------------------------------------------------------------------ 4. evidence
     n_obl = len([o for o in obs if o.kind != "vacuity"])
     by_backend = {}
